@@ -304,18 +304,20 @@ def rule_disjunction(run, F, cfg):
         if st["k"] == "assign" and st["rv"]["k"] == "agg" and str(st["rv"].get("adt", "")).endswith("FilterPart"):
             c = dominating_conditions(fus, b, render=fus.vexpr_operand)
             ops = [fus.vexpr_operand(o) for o in st["rv"]["ops"]]
-            ln = [v for k, v in c.items() if re.match(r"^\(std::vec::Vec::len\(\$flat_patterns\) Eq 1\)$", k)]
-            em = c.get("std::vec::Vec::is_empty($flat_patterns)")
-            anyv = [v for k, v in c.items() if "Iterator>::any(core::slice::iter($filters)" in k]
+            ln = [v for k, v in c.items() if re.match(r"^\(std::vec::Vec::len\(\$\w+\) Eq 1\)$", k)]
+            em = next((v for k, v in c.items() if re.match(r"^std::vec::Vec::is_empty\(\$\w+\)$", k)), None)
+            anyv = [v for k, v in c.items() if re.search(r"Iterator>::any\(core::slice::iter\(\$\w+\)", k)]
             parts.append((st["rv"]["variant"], ops, em, ln[0] if ln else None, anyv[0] if anyv else None))
-    good = True
+    # the vector of collected patterns, whatever it is called: the operand of the AnyOf construction
+    pv = next((ops[0] for var, ops, em, ln, anyv in parts if var == "AnyOf" and len(ops) == 1 and re.match(r"^\$\w+$", ops[0])), None)
+    good = pv is not None
     for var, ops, em, ln, anyv in parts:
         if var == "Empty":
             good = good and (anyv == 1 or em == 1)
         elif var == "Simple":
-            good = good and ln == 1 and len(ops) == 1 and bool(re.search(r"index\(\$flat_patterns, 0\)\)?$", ops[0]))
+            good = good and ln == 1 and len(ops) == 1 and bool(re.search(r"index\(" + re.escape(pv or "$?") + r", 0\)\)?$", ops[0]))
         elif var == "AnyOf":
-            good = good and ops == ["$flat_patterns"] and em == 0 and ln == 0
+            good = good and ops == [pv] and em == 0 and ln == 0
         else:
             good = False
     run.ob("C05.4.disjunction", "all-alternatives-kept", good and sorted(p[0] for p in parts) == ["AnyOf", "Empty", "Empty", "Simple"],
